@@ -6,6 +6,7 @@ package jlib
 
 import (
 	"fmt"
+	"math"
 	"reflect"
 
 	"github.com/blues/jsonata-go/jtypes"
@@ -32,6 +33,10 @@ func Sum(v reflect.Value) (float64, error) {
 			return 0, fmt.Errorf("cannot call sum on an array with non-number types")
 		}
 		sum += n
+	}
+
+	if math.IsInf(sum, 0) || math.IsNaN(sum) {
+		return 0, fmt.Errorf("cannot call sum: the result is out of range")
 	}
 
 	return sum, nil
